@@ -303,6 +303,7 @@ def make_machine(max_n: int, with_1000: bool):
 
         def _do(self, op):
             self.case["ops"].append(op)
+            self.ctx.current_case = self.case
             self.sim.apply(op, self.res)
 
         def _unknown(self):
